@@ -13,7 +13,7 @@ from vlib import eql_gen as GEN
 
 ID = "C02"
 LEVEL = "exploration"
-RULE = ("random queries in the fragment {atoms, negated atoms, and_, or_ between sides over identical variable sets} "
+RULE = ("random queries in the fragment {atoms (comparisons, membership, Predicate subclasses, HasType, symbolic functions), negated atoms, and_, or_ between sides over identical variable sets} "
         "with 1-4 variables (selected and non-selected), list / one-shot generator domains, value-equal distinct "
         "objects, ordering comparisons over partially ordered operands (NaN floats, frozensets), plain and negated; "
         "forced patterns: both sides of an or_ true for the same element, a variable bound by one comparator "
@@ -53,10 +53,27 @@ def gen_porder_atom(rng, names):
     return ["cmp", op, ["attr", ["var", v], "fs"], ["attr", ["var", w], "fs"]]
 
 
+def gen_pred_atom(rng, names):
+    """predicates / symbolic functions as atoms (the statement's fragment names them explicitly)"""
+    v, w = rng.choice(names), rng.choice(names)
+    k = rng.random()
+    if k < 0.35:
+        return ["pred", "BothPositive", [["var", v], ["var", w]]]
+    if k < 0.6:
+        return ["pred", "AGreater", [["var", v], ["lit", rng.randint(0, 1)]]]
+    if k < 0.8:
+        return ["hastype", ["var", v], "Q"]
+    return ["cmp", rng.choice(GEN.CMP), ["fn", "sum_ab", {"x": ["var", v], "y": ["var", w]}], ["lit", rng.randint(1, 4)]]
+
+
 def gen_atom_nnf(rng, names, ctx):
-    if rng.random() < 0.12:
+    r = rng.random()
+    if r < 0.12:
         a = gen_porder_atom(rng, names)
         return ["not", a] if rng.random() < 0.5 else a
+    if r < 0.27:
+        a = gen_pred_atom(rng, names)
+        return ["not", a] if rng.random() < 0.25 else a
     a = GEN.gen_atom(rng, names, False, ctx)
     while a[0] == "truth":      # keep to comparisons / membership (atoms of the fragment)
         a = GEN.gen_atom(rng, names, False, ctx)
@@ -121,7 +138,14 @@ def gen(rng, tier, ctx):
 
 
 def witnesses():
-    return {}
+    world = [{"cls": "P", "a": 1, "b": 1, "items": [], "kids": [], "ref": None, "d": {"k": 0}, "name": "o0", "f": "0.0", "fs": []},
+             {"cls": "Q", "a": 2, "b": 0, "items": [], "kids": [], "ref": None, "d": {"k": 0}, "name": "o1", "f": "0.0", "fs": []},
+             {"cls": "P", "a": 0, "b": 2, "items": [], "kids": [], "ref": None, "d": {"k": 0}, "name": "o2", "f": "0.0", "fs": []}]
+    X = [{"name": "x", "type": "P", "dom": [0, 1, 2], "kind": "list"}]
+    return {"or-of-predicates-evaluated-as-union": {
+        "world": world, "vars": X, "derived": [],
+        "cond": ["or", ["pred", "BothPositive", [["var", "x"], ["var", "x"]]], ["cmp", "==", ["attr", ["var", "x"], "a"], ["lit", 2]]],
+        "select": [["var", "x"]], "mode": "entity", "family": "witness"}}
 
 
 def both_sides_true(spec, m, objs):
